@@ -88,6 +88,7 @@ class AllocatorAwarePointer
     constexpr AllocatorAwarePointer(AllocatorAwarePointer&& other) noexcept
         : impl_(other.release(), other.size(), other.get_allocator())
     {
+        other.size() = {};
     }
 
 #if __cpp_constexpr_dynamic_alloc
@@ -132,7 +133,7 @@ class AllocatorAwarePointer
             propagate_on_container_move_assignment(other);
             deallocate();
             get() = other.release();
-            size() = other.size();
+            size() = std::exchange(other.size(), {});
         }
         return *this;
     }
@@ -157,7 +158,7 @@ class AllocatorAwarePointer
     {
         deallocate();
         get() = other.release();
-        size() = other.size();
+        size() = std::exchange(other.size(), {});
     }
 
     constexpr void propagate_on_container_copy_assignment(const AllocatorAwarePointer& other) noexcept
